@@ -25,7 +25,9 @@ Definition ecase_mon_C14 (c : ecase) := mon_C14 (ec_prog c) (ec_cfg c) (ec_compl
 
 (* liveness at quiescent points: where the implementation is stuck the model must be stuck too *)
 Definition ecase_mon_eager (c : ecase) : bool :=
-  if ec_agree c then eager_ok (ec_prog c) (ec_cfg c) (ec_obs c) else true.
+  if ec_agree c then negb (Nat.eqb (live_code (ec_prog c) (ec_cfg c) (ec_obs c)) 2) else true.
+Definition ecase_live_inconclusive (c : ecase) : bool :=
+  if ec_agree c then Nat.eqb (live_code (ec_prog c) (ec_cfg c) (ec_obs c)) 1 else false.
 
 Definition ecase_agree (c : ecase) : bool :=
   if ec_agree c then Nat.eqb (agree_code (ec_prog c) (ec_cfg c) (ec_obs c) (ec_final c)) 0 else true.
